@@ -189,6 +189,14 @@ def run(prop, tier, seed, unit_results):
                 rr['rule'] = (rr.get('rule') or '') + ' || also the %s search: ' % other + (r2.get('rule') or '')
                 rr['failures'] = (rr.get('failures') or []) + (r2.get('failures') or [])
         rep = {k: rr.get(k) for k in ('status', 'cases', 'distinct', 'rule', 'wall_s', 'samples', 'detail')}
+        # assumption conformance: the naga invariants the contracts take as preconditions, evaluated on every module the oracles parsed
+        ac = rr.get('assumptions') or {}
+        res['report']['assumption_conformance'] = {
+            'level': 'executable test (not a proof) of the naga invariants used as preconditions (wf, wf_entries, types_wf, arrays_wf, module_wf, globals_wf, consts_wf, arena order = handle order, UniqueArena uniqueness, bound members of input structs, push constant size % 4) on every module parsed during the witness search',
+            'modules_checked': ac.get('modules_checked', 0), 'violations': ac.get('violations', [])}
+        if ac.get('violations'):
+            # a proved contract says nothing about an input that violates its precondition: never an alarm, never HELD
+            res['undecided'].append({'reason': 'assumption-nonconformance', 'unit': 'witness-search', 'detail': '; '.join(ac['violations'][:3])})
         rep['level'] = 'bounded witness search on the real crate (labelled bounded; never counted as proved)'
         rep['failures'] = rr.get('failures', [])[:3]
         res['report']['witness_search'] = rep
